@@ -222,6 +222,8 @@ func (s *connectionWorker) serve(ctx context.Context, session *sessions.Session)
 	}
 	cancel()
 	s.manager.shutdownSession(ctx, session)
+	// whatever ended the session, its network connection goes with it
+	session.Close()
 }
 
 func (s *manager) shutdownSession(ctx context.Context, session *sessions.Session) {
